@@ -30,6 +30,14 @@ MAGIC_LBRACKET_CHAR: str = chr(MAGIC_LEFT_SBRACKET)
 MAGIC_RIGHT_SBRACKET: int = next(mnum)
 MAGIC_RBRACKET_CHAR: str = chr(MAGIC_RIGHT_SBRACKET)
 
+# An argument of a template call or of #invoke is named when it begins with a
+# name followed by "=".  A name cannot contain the characters that start or
+# delimit links, HTML tags and attributes ('<span class="x">' in an unnamed
+# argument must not turn into a name).  The parser's
+# TemplateNode.template_parameters, the expander and the Lua frame builder
+# all use this one definition.  Groups: name, value (both trimmed).
+NAMED_ARG_RE = re.compile(r"""(?s)^\s*([^][&<>="]+?)\s*=\s*(.*?)\s*$""")
+
 # Strings used to identify valid [https://external links]
 URL_STARTS = (
     "http://",
